@@ -20,6 +20,7 @@ class ProtoWorld:
         self.n_proc = {}
         self.full = {}           # chan id -> symbolic/concrete fullness for try_send (cap-1 slots)
         self.closed = {}
+        self.killed = set()      # processes killed on this path (their status() completes at once)
 
     # channels -----------------------------------------------------------------
     def new_channel(self, I, cap, node):
@@ -75,8 +76,16 @@ class ProtoWorld:
         return ok(Opaque('Child', proc=pid))
 
     def kill_process(self, I, proc, node):
+        # assumption (stated in evidence): SIGKILL succeeds and the killed child exits promptly
         I.effect('kill', proc=proc, line=node['line'])
+        self.killed.add(proc)
         return ok(UNIT)
+
+    def status_of_killed(self, I, proc, node):
+        if proc in self.killed:
+            I.effect('reap', proc=proc, line=node['line'])
+            return ok(Opaque('ExitStatus', success=False))
+        return None
 
     def new_watcher(self, I, handler, node):
         I.effect('watcher', handler=handler)
